@@ -2134,8 +2134,17 @@ class RepeatingEngine(Engine):
                 self.lastExecution = False
                 self.emit_now()
 
+        # VV: A RepeatingEngine follows the restart policy of its component too: an explicit maxRestarts
+        #     (-1 means unlimited) and the exit reasons that the component lists in restartHookOn
+        max_restarts = self.job.workflowAttributes.get('maxRestarts', None)
+        if max_restarts is not None and max_restarts != -1 and self.restarts + 1 > max_restarts:
+            self.log.info("Already restarted maximum number of times (%d) - will return RestartMaxAttemptsExceeded" %
+                          max_restarts)
+            return experiment.model.codes.restartCodes['RestartMaxAttemptsExceeded']
+
         # VV: @tag:RestartEngines
-        if reason == experiment.model.codes.exitReasons["ResourceExhausted"] and self.restarts == 0:
+        if reason == experiment.model.codes.exitReasons["ResourceExhausted"] and self.restarts == 0 \
+                and reason in self.job.workflowAttributes.get('restartHookOn', []):
             # VV: A RepeatingEngine will only restart once and only if its last exit-reason was ResourceExhausted
             self.log.info("Attempting restart of interrupted last task execution")
 
